@@ -1,4 +1,7 @@
 use crate::suite::{Ctx, Out};
+pub mod c12;
+pub mod c13;
+pub mod c14;
 pub mod c15;
 pub mod c16;
 
@@ -6,6 +9,10 @@ pub fn run(name : &str, ctx : &Ctx, out : &mut Out) -> bool
 {
     match name
     {
+        "c12_sorter" => c12::sorter(ctx, out),
+        "c13_identity" => c13::identity(ctx, out),
+        "c14_parser" => c14::parser(ctx, out),
+        "c14_files_bundles" => c14::parse_all_and_bundle(ctx, out),
         "c15_base62" => c15::base62(ctx, out),
         "c15_sha" => c15::sha(ctx, out),
         "c16_history" => c16::history(ctx, out),
